@@ -335,6 +335,7 @@ def case_c20(acc, text, indents, with_comments=False):
         acc.out['input-not-accepted'] += 1
         return
     node_kinds(out.tree, acc.kinds)
+    counted = False
     for ind in indents:
         w = {'text': text, 'indent': ind, 'with_comments': with_comments}
         try:
@@ -347,7 +348,8 @@ def case_c20(acc, text, indents, with_comments=False):
             acc.out['output-not-readable-by-reference (C01 reports it)'] += 1
             continue
         acc.traces += 1
-        if '{' in P:
+        if '{' in P and not counted:
+            counted = True
             acc.nontrivial += 1
         acc.out['judged'] += 1
         if len(acc.samples) < 2:
